@@ -2,6 +2,7 @@
    Pinned statements only. *)
 Require Import Base Suggestion Rebase ListLemmas SuggestionProofs SpanSchemas Tables_spanexprs SpanSites.
 Require Import Cache C03Span C03SpanProofs C03LintGroup C03LintGroupProofs.
+Require Import C05Lru C03LintGroupLru C03LintGroupLruProofs Tables_c03cache.
 
 (* the edit primitive: total on spans inside the text *)
 Theorem C03_apply_total : forall s sp src, span_in (length src) sp -> is_ok (apply s sp src) = true.
@@ -372,6 +373,77 @@ Example C03_lintgroup_nonvacuous :
     Ok (st, [(ex_doc1, [mkclint (mkspan 0 6) 20%N; mkclint (mkspan 0 2) 10%N; mkclint (mkspan 3 5) 10%N]);
              (ex_doc2, [mkclint (mkspan 0 6) 20%N; mkclint (mkspan 3 5) 10%N])]).
 Proof. exact (conj ex_wrules_ok (conj ex_prules_ok (conj ex_hist_ok ex_run_value))). Qed.
+
+(* ================= LintGroup::lint over the REAL LRU (Model/C03LintGroupLru.v) ================= *)
+(* REFINEMENT.  The chunk cache as the `lru` crate has it — get promotes a hit to the front, put pops the least
+   recently used entry when the cache holds `cap` entries — for EVERY capacity: every history (configuration
+   assignments and lint calls) on a LintGroup over this cache is, for a suitable choice of the adversary's evictions
+   (h2 shadows h: same operations, an eviction schedule added to each lint call), a history of the adversarial model
+   of Model/C03LintGroup.v with the SAME answers — or the same panic.  States are related by st_sim: same
+   configuration, same call counter, caches equal as maps, no duplicate key in the LRU list. *)
+Theorem C03_lintgroup_lru_refines :
+  forall (cfg kind : Type) (enabled : cfg -> N -> bool) (cfg_hash : cfg -> N) (tok_hash : list (tok kind) -> N)
+         (linters : list (N * wrule kind)) (plinters : list (N * prule kind)) (cap : nat)
+         (h : list (lrop cfg kind)) (st1 st2 : lstate cfg),
+    st_sim cfg st1 st2 ->
+    exists h2, shadows cfg kind h h2 /\
+      match lgl_run cfg kind enabled cfg_hash tok_hash linters plinters cap h st1 with
+      | Ok (s1, outs) => exists s2, lg_run cfg kind enabled cfg_hash tok_hash linters plinters h2 st2 = Ok (s2, outs) /\ st_sim cfg s1 s2
+      | Panic p => lg_run cfg kind enabled cfg_hash tok_hash linters plinters h2 st2 = Panic p
+      end.
+Proof. exact lgl_run_refines. Qed.
+Check C03_lintgroup_lru_refines :
+  forall (cfg kind : Type) (enabled : cfg -> N -> bool) (cfg_hash : cfg -> N) (tok_hash : list (tok kind) -> N)
+         (linters : list (N * wrule kind)) (plinters : list (N * prule kind)) (cap : nat)
+         (h : list (lrop cfg kind)) (st1 st2 : lstate cfg),
+    st_sim cfg st1 st2 ->
+    exists h2, shadows cfg kind h h2 /\
+      match lgl_run cfg kind enabled cfg_hash tok_hash linters plinters cap h st1 with
+      | Ok (s1, outs) => exists s2, lg_run cfg kind enabled cfg_hash tok_hash linters plinters h2 st2 = Ok (s2, outs) /\ st_sim cfg s1 s2
+      | Panic p => lg_run cfg kind enabled cfg_hash tok_hash linters plinters h2 st2 = Panic p
+      end.
+Print Assumptions C03_lintgroup_lru_refines.
+
+(* ... hence the in-bounds theorem for the cache the code has (capacity = Tables_c03cache.lint_group_cache_cap, or any
+   other): under the two premises on the rules, every history on a LintGroup whose cache satisfies the invariant and
+   has no duplicate keys (the empty one) never panics and every lint lies inside the document of its call *)
+Theorem C03_lintgroup_lru_history_in_bounds :
+  forall (cfg kind : Type) (enabled : cfg -> N -> bool) (cfg_hash : cfg -> N) (tok_hash : list (tok kind) -> N)
+         (linters : list (N * wrule kind)) (plinters : list (N * prule kind)) (cap : nat),
+    (forall n r t d, In (n, r) linters -> doc_ok kind d -> Forall (lint_in (length (l_src d))) (r t d)) ->
+    (forall n r t src ts sp, In (n, r) plinters -> hull_of ts = Ok (Some sp) -> send sp <= length src ->
+        Forall (lint_within sp) (r t src ts)) ->
+    forall (h : list (lrop cfg kind)) (st : lstate cfg),
+      rhist_ok cfg kind h -> cache_ok (lg_cache st) -> NoDup (map fst (lg_cache st)) ->
+      exists st' outs,
+        lgl_run cfg kind enabled cfg_hash tok_hash linters plinters cap h st = Ok (st', outs) /\
+        map fst outs = rhist_docs cfg kind h /\
+        Forall (fun p => Forall (lint_in (length (l_src (fst p)))) (snd p)) outs.
+Proof. exact lgl_history_in_bounds. Qed.
+Check C03_lintgroup_lru_history_in_bounds :
+  forall (cfg kind : Type) (enabled : cfg -> N -> bool) (cfg_hash : cfg -> N) (tok_hash : list (tok kind) -> N)
+         (linters : list (N * wrule kind)) (plinters : list (N * prule kind)) (cap : nat),
+    (forall n r t d, In (n, r) linters -> doc_ok kind d -> Forall (lint_in (length (l_src d))) (r t d)) ->
+    (forall n r t src ts sp, In (n, r) plinters -> hull_of ts = Ok (Some sp) -> send sp <= length src ->
+        Forall (lint_within sp) (r t src ts)) ->
+    forall (h : list (lrop cfg kind)) (st : lstate cfg),
+      rhist_ok cfg kind h -> cache_ok (lg_cache st) -> NoDup (map fst (lg_cache st)) ->
+      exists st' outs,
+        lgl_run cfg kind enabled cfg_hash tok_hash linters plinters cap h st = Ok (st', outs) /\
+        map fst outs = rhist_docs cfg kind h /\
+        Forall (fun p => Forall (lint_in (length (l_src (fst p)))) (snd p)) outs.
+Print Assumptions C03_lintgroup_lru_history_in_bounds.
+
+(* non-vacuity: with capacity 1 the second clause of "xy.ab." pops the first (the next call misses twice and the cache
+   holds one entry), with capacity 2 the next call hits twice with the same lints; the premises of the theorem hold on
+   a history with such an eviction; the capacity read from lint_group.rs is 10000 *)
+Example C03_lintgroup_lru_nonvacuous :
+  (exists s1 o1 s2 o2, exl_hits 1 (lg_fresh 129%N) = Ok (s1, o1, [false; false]) /\ exl_hits 1 s1 = Ok (s2, o2, [false; false]) /\
+                       length (lg_cache s2) = 1) /\
+  (exists s1 o1 s2 o2, exl_hits 2 (lg_fresh 129%N) = Ok (s1, o1, [false; false]) /\ exl_hits 2 s1 = Ok (s2, o2, [true; true]) /\
+                       o1 = o2 /\ Forall (lint_in 6) o2) /\
+  rhist_ok N N exl_hist /\ lint_group_cache_cap_N = 10000%N.
+Proof. exact (conj (proj1 exl_capacity_matters) (conj (proj2 exl_capacity_matters) (conj exl_hist_ok eq_refl))). Qed.
 
 (* non-vacuity: all three kinds on a concrete text, incl. the equal-length in-place path, a span
    touching the end, and the rejected case *)
